@@ -242,7 +242,7 @@ namespace
 
 		// Check that array is n x k
 		for (size_t i = 1; i < row_size; i++) {
-			if (l->at(i).data<d_array>()->size() != col_size) {
+			if (l->at(i).type() != t_array() || l->at(i).data<d_array>()->size() != col_size) {
 				return std::make_shared<d_array>();
 			}
 		}
@@ -252,7 +252,8 @@ namespace
 		for (size_t i = 0; i < col_size; i++) {
 			auto row = std::make_shared<d_array>();
 			for (size_t j = 0; j < row_size; j++) {
-				row->push_back(l->at(j).data<d_array>()->at(i).data<d_scalar, float>());
+				// The element moves as it is, whatever it is (reading it as a number is only defined for numbers)
+				row->push_back(value(l->at(j).data<d_array>()->at(i)));
 			}
 			transposed->push_back(row);
 		}
